@@ -298,7 +298,7 @@ class Run:
             try:
                 result = optimize(scheme, verbose=verbose, raise_exception=raise_exception)
             except BaseException as e:  # noqa: BLE001 - the oracle wants everything
-                if isinstance(e, core.HarnessError):
+                if isinstance(e, (core.HarnessError, core.RunTimeout)):
                     sys.stdout = old_stdout
                     raise
                 exc = e
